@@ -42,6 +42,8 @@ _s3 = importlib.util.spec_from_file_location("c18", os.path.join(os.path.dirname
 for u in C18.UNITS:
     if u["name"] in ("c18_impl_eval",):
         v = copy.deepcopy(u); v["name"] = "c03_termination_eval"; UNITS.append(v)
+    if u["name"] in ("c18_iteration_eval", "c18_iteration_reset"):      # anchor IterationTerminationCondition.cpp: an evaluation-count limit interrupts after exactly that many evaluations
+        v = copy.deepcopy(u); v["name"] = u["name"].replace("c18_", "c03_"); UNITS.append(v)
 EITF = "src/ompl/geometric/planners/informedtrees/src/EITstar.cpp"
 PRMF3 = "src/ompl/geometric/planners/prm/src/PRM.cpp"
 EA_RULES = [
